@@ -546,24 +546,38 @@ def r_fpscale(ctx, prog):
 
 def r_srand_dom(ctx, prog):
     R = 'R-SRAND-DOM'
-    ctx.rule(R, 'in every function that draws from the RFC 5170 PRNG, a call of_rfc5170_srand(<seed parameter>) dominates every '
-             'draw; nothing else calls the generator', floor=2)
+    ctx.rule(R, 'every draw from the RFC 5170 PRNG is preceded, on every path, by of_rfc5170_srand(<seed parameter>): in the drawing '
+             'function itself, or at every call site of a helper that draws without seeding; nothing else calls the generator', floor=2)
     callers = {}
     for fn in prog.all_functions:
         cs = [c for c in fn.calls('of_rfc5170_rand')]
         if cs:
             callers[fn.name] = (fn, cs)
     ctx.need(callers, R, 'nobody calls of_rfc5170_rand any more')
-    for name, (fn, cs) in sorted(callers.items()):
-        ss = [c for c in fn.calls('of_rfc5170_srand')]
+
+    def seeded_at(fn, inst, depth=0):
+        """is `inst` dominated by srand(parameter) in fn, or is every call site of fn seeded (recursively)?"""
         tt = Terms(fn)
-        good = [s for s in ss if tt.term(s.args[0])[0] == 'param']
+        ss = [s for s in fn.calls('of_rfc5170_srand') if tt.term(s.args[0])[0] == 'param']
+        if any(fn.dominates(s, inst) for s in ss):
+            return True
+        if depth >= 3:
+            return False
+        sites = prog.callers(fn.name)
+        if not sites:
+            return False
+        return all(seeded_at(c.fn, c, depth + 1) for c in sites)
+
+    for name, (fn, cs) in sorted(callers.items()):
+        tt = Terms(fn)
         for c in cs:
-            ok = any(fn.dominates(s, c) for s in good)
-            ctx.instance(R, ok, c, 'draw:seeded', 'draw from the PRNG in %s not dominated by of_rfc5170_srand(seed parameter): '
-                         'the matrix would depend on earlier sessions' % name)
-        # no re-seeding between draws with something else
-        for s in ss:
-            if s not in good:
-                ctx.fail(R, s, 'srand:arg', 'of_rfc5170_srand called with %s, not a parameter of %s' % (show(tt.term(s.args[0])), name))
+            ok = seeded_at(fn, c)
+            ctx.instance(R, ok, c, 'draw:seeded:%s' % name, 'draw from the PRNG in %s not preceded by of_rfc5170_srand(seed parameter) '
+                         'on every path: the matrix would depend on earlier sessions' % name)
+    for fn in prog.all_functions:
+        tt = Terms(fn)
+        for s in fn.calls('of_rfc5170_srand'):
+            ok = tt.term(s.args[0])[0] == 'param'
+            ctx.instance(R, ok, s, 'srand:arg:%s' % fn.name, 'of_rfc5170_srand called with %s, not a seed parameter of %s' %
+                         (show(tt.term(s.args[0])), fn.name))
     return sorted(callers)
